@@ -61,7 +61,7 @@ func Gen(prop, tier string, seed uint64) *kernel.Plan {
 	case "C08":
 		cfg.Oracles["retry"] = true
 	case "C11":
-		cfg.Oracles["snap"], cfg.Oracles["snapcatch"] = true, true
+		cfg.Oracles["snap"] = true
 	case "C12":
 		cfg.Oracles["serial"] = true
 	case "C13":
@@ -153,6 +153,18 @@ func Gen(prop, tier string, seed uint64) *kernel.Plan {
 			evs = append(evs, e)
 		case 4:
 			evs = append(evs, Ev{T: "advance", Dur: []int64{1, 5, 50, 1000, 6000, 60000, 86400000}[g.Intn(7)]})
+		}
+		if prop == "C13" && g.Chance(1, 6) {
+			// the whole entry matrix: any mode, any kind (possibly not the key's), any key (possibly unused)
+			k := append(append([]string{}, c.keys...), "k9")[g.Intn(len(c.keys)+1)]
+			kind := c.kindOf[k]
+			if kind == "" || g.Chance(1, 3) {
+				kind = kinds[g.Intn(4)]
+			}
+			evs = append(evs, Ev{T: "open", A: a, K: k, Kind: kind, Mode: []string{"create", "subscribe", "soc"}[g.Intn(3)]})
+			if g.Chance(2, 3) {
+				evs = append(evs, Ev{T: "sync", A: a})
+			}
 		}
 		if g.Chance(1, 25) {
 			// late subscriber
